@@ -60,7 +60,7 @@ OkGroups ==
     G(<<"-elevrange", "0,100">>, Opt("elevrange", <<0, 100>>)), G(<<"-obsrange", "1,4">>, Opt("obsrange", <<R(1), R(4)>>)),
     G(<<"-leg", "Aa,B_b">>, [k |-> "leg", v |-> <<"Aa", "B b">>]), G(<<"-acc">>, [k |-> "acc", v |-> TRUE]),
     \* pre-aggregation: -T (hours), its aggregator (default mean) and its axis (default leadtime); -Tagg / -Tx alone change nothing
-    G(<<"-T", "13">>, [k |-> "T", v |-> R(13)]), G(<<"-Tagg", "sum">>, [k |-> "Tagg", v |-> "sum"]), G(<<"-Tx", "time">>, [k |-> "Tx", v |-> "time"]),
+    G(<<"-T", "13">>, [k |-> "T", v |-> R(13)]), G(<<"-Tagg", "sum">>, [k |-> "Tagg", v |-> "sum"]), G(<<"-Tagg", "abschange">>, [k |-> "Tagg", v |-> "abschange"]), G(<<"-Tx", "time">>, [k |-> "Tx", v |-> "time"]),
     \* field selection: any other column of the files may stand in for the forecast or the observation
     G(<<"-fcst", "Tmax">>, [k |-> "fcstfield", v |-> "Tmax"]), G(<<"-obs", "Tmax">>, [k |-> "obsfield", v |-> "Tmax"]),
     G(<<"-c", "CLIM">>, [k |-> "clim", v |-> "subtract"]), G(<<"-C", "CLIM2">>, [k |-> "clim", v |-> "divide"]) }
